@@ -19,6 +19,7 @@ import (
 	"time"
 
 	"github.com/google/reftable"
+	"verif/harness/dec"
 	"verif/harness/gen"
 	"verif/harness/rep"
 	"verif/harness/rtx"
@@ -59,6 +60,32 @@ func c18Bases(seed int64) []baseTable {
 			b.names = b.names[:12]
 		}
 		out = append(out, b)
+	}
+	// small tables with 2+ index levels (refs and logs) so that index mutations have
+	// something to chew on
+	for i := 0; i < 6; i++ {
+		r := gen.NewRng(seed + int64(i)*31)
+		t := &gen.Table{}
+		t.Cfg.SHA256 = i%2 == 1
+		t.Cfg.BlockSize = 128
+		if t.Cfg.SHA256 {
+			t.Cfg.BlockSize = 160
+		}
+		t.Cfg.Unaligned = i%3 == 2
+		t.Cfg.Restart = []int{0, 1, 3}[i%3]
+		t.Cfg.SetLimits, t.Cfg.Min, t.Cfg.Max = true, 1, 9
+		hs := t.Cfg.HashSize()
+		pool := r.NewPool(hs, 4)
+		n := 90 + 20*i
+		for j := 0; j < n; j++ {
+			t.Refs = append(t.Refs, gen.Ref{Name: fmt.Sprintf("r/%04d", j*3), UI: 1 + uint64(j%9), Kind: gen.KVal, Value: pool.Get()})
+		}
+		if i >= 3 {
+			for j := 0; j < 40; j++ {
+				t.Logs = append(t.Logs, gen.Log{Name: fmt.Sprintf("r/%04d", j*3), UI: 2, New: pool.Get(), User: "u", Email: "e", Time: 7, Msg: "m\n"})
+			}
+		}
+		add(t, fmt.Sprintf("multi-level-index#%d", i))
 	}
 	for i := 0; len(out) < 28 && i < 400; i++ {
 		add(gen.GenTable(seed^0xc18, i), fmt.Sprintf("GenTable#%d", i))
@@ -120,7 +147,7 @@ func mutate(r *gen.Rng, bases []baseTable, bi int) (data []byte, kind string) {
 		fsz = 72
 	}
 	body := len(d) - fsz
-	k := r.Intn(16)
+	k := r.Intn(18)
 	repair := r.Chance(0.7)
 	switch k {
 	case 0:
@@ -271,6 +298,35 @@ func mutate(r *gen.Rng, bases []baseTable, bi int) (data []byte, kind string) {
 			d = d[:n]
 		}
 		repair = false
+	case 16, 17:
+		kind = "index-retarget"
+		// rewrite the position of one index entry so that it names another index block
+		// (cycles of any length), a block of another section, or itself
+		if info, _ := dec.Decode(src, dec.Options{StructuralOnly: true}); info != nil {
+			var idxBlocks []int
+			for i := range info.Blocks {
+				if info.Blocks[i].Type == 'i' && len(info.Blocks[i].Idx) > 0 {
+					idxBlocks = append(idxBlocks, i)
+				}
+			}
+			if len(idxBlocks) > 0 {
+				b := &info.Blocks[idxBlocks[r.Intn(len(idxBlocks))]]
+				e := b.Idx[r.Intn(len(b.Idx))]
+				// candidate targets: any block start
+				for try := 0; try < 20; try++ {
+					tb := &info.Blocks[r.Intn(len(info.Blocks))]
+					if try < 12 && tb.Type != 'i' {
+						continue
+					}
+					enc := encVarint(uint64(tb.Off))
+					if len(enc) == e.ValLen && b.Off+e.ValOff+e.ValLen <= body {
+						copy(d[b.Off+e.ValOff:], enc)
+						break
+					}
+				}
+			}
+		}
+		repair = false
 	case 15:
 		kind = "dup-tail"
 		// append the footer again / insert zeros before the footer
@@ -287,6 +343,23 @@ func mutate(r *gen.Rng, bases []baseTable, bi int) (data []byte, kind string) {
 		fixCRC(d)
 	}
 	return d, kind
+}
+
+// encVarint is the reftable varint encoding (own copy for the mutator).
+func encVarint(v uint64) []byte {
+	var tmp [10]byte
+	i := 9
+	tmp[i] = byte(v & 0x7f)
+	for {
+		v >>= 7
+		if v == 0 {
+			break
+		}
+		v--
+		i--
+		tmp[i] = 0x80 | byte(v&0x7f)
+	}
+	return append([]byte(nil), tmp[i:]...)
 }
 
 func maxi(a, b int) int {
